@@ -306,6 +306,20 @@ def c_checked_add(ex, st, callee, a):
 def c_range_incl_new(ex, st, callee, a): return [(None, adt('RangeInclusive', None, a[0], a[1]))]
 
 
+@contract(r'^std::ops::Range::<\w+>::contains::<\w+>$')
+def c_range_contains(ex, st, callee, a):
+    r = deref(st, a[0]); x = deref(st, a[1]); return [(None, And(r[3][0] <= x, x < r[3][1]))]
+
+
+@contract(r'RangeInclusive::<\w+>::new$')
+def c_range_incl_new_any(ex, st, callee, a): return [(None, adt('RangeInclusive', None, a[0], a[1]))]
+
+
+@contract(r'RangeInclusive::<\w+>::contains::<\w+>$')
+def c_range_incl_contains_any(ex, st, callee, a):
+    r = deref(st, a[0]); x = deref(st, a[1]); return [(None, And(r[3][0] <= x, x <= r[3][1]))]
+
+
 @contract(r'RangeInclusive::<usize>::contains::<usize>$')
 def c_range_incl_contains(ex, st, callee, a):
     r = deref(st, a[0]); x = deref(st, a[1]); return [(None, And(r[3][0] <= x, x <= r[3][1]))]
